@@ -1178,6 +1178,8 @@ static void build_cases(int tier)
 	doc_t *d = &seed_docs[s];
 	doc_parse(d, sd->format, sd->text, (int)strlen(sd->text));
 	add_case(CT_SEED, s, 0, 0, 1, 0);
+	if (sd->flags & SF_ALONE)
+	    continue;
 	for (int k = 0; k < NKINDS; ++k) {
 	    long n = dev_count(d, k);
 	    long chunk = (k == K_KW || k == K_YSUB || k == K_REDECL ||
